@@ -71,14 +71,23 @@ def fmod (x y : Float) : Float :=
   let t := if q < 0.0 then q.ceil else q.floor
   x - t * y
 
-/-- C `remainder`: x - n*y with n = x/y rounded to nearest, ties to even. -/
+/-- C `remainder`: x - n*y with n = x/y rounded to nearest (ties to even), computed EXACTLY as C does.
+    Lean has no binding for it; for |x/y| < 2^26 the product n*y is formed exactly from a Veltkamp
+    split of y and the subtraction is exact, which reproduces libm's result bit for bit. -/
 def remainder (x y : Float) : Float :=
   let q := x / y
-  let n := q.round   -- half away from zero
-  -- fix ties to even
-  let n := if (q - q.floor == 0.5) && ((q.floor / 2.0).floor * 2.0 != q.floor) then q.floor + 1.0
-           else if (q - q.floor == 0.5) then q.floor else n
-  x - n * y
+  let fl := q.floor
+  let n0 := q.round   -- half away from zero
+  let n := if (q - fl == 0.5) then (if (fl / 2.0).floor * 2.0 == fl then fl else fl + 1.0) else n0
+  let c := 134217729.0 * y
+  let yh := c - (c - y)
+  let yl := y - yh
+  let r := (x - n * yh) - n * yl
+  let h := y.abs / 2.0
+  -- repair a quotient that was mis-rounded by the inexact division
+  if r > h then (r - yh.abs) - (if y < 0.0 then -yl else yl)
+  else if r < -h then (r + yh.abs) + (if y < 0.0 then -yl else yl)
+  else r
 
 end CasFloat
 
